@@ -40,13 +40,15 @@ Fixpoint list_abs {A} (r : Q -> A -> A -> bool) (tols : list Q) (a b : list A) :
   end.
 """
 FINISH = dict(level="proof", technique_note=(
-    "Coq theorems (coq/C12/Props.v) about the executable exact-rational model coq/C12/Model.v (Kalman recursion, "
-    "LinearStateSpace routines, and the specification batch_conditional); the model is evaluated with vm_compute on the inputs "
-    "the implementation ran and compared in Q (1e-9 mixed abs/rel for Kalman, stationary values 1e-7, exact or 1e-12 for dyadic "
-    "moment/impulse/simulation data); 'sequential = batch' is decided per case exactly in Q (model recursion vs batch_conditional) "
-    "and at 1e-9 for the implementation; independent Fraction oracle (joint law built from the linear maps of the primitive "
-    "shocks, one exact solve; closed forms; state equations for the shocks actually drawn). non-trivial = n>=2 and record "
-    "length>=2 (Kalman), n>=2 and horizon>=2 (moments/impulse/simulation), a constant state plus >=1 other state (stationary)"))
+    "Coq theorems (coq/C12/Props.v) about the executable exact-rational model coq/C12/Model.v (Kalman recursion and operation "
+    "sequences, LinearStateSpace routines, and the specification batch_conditional); the model is evaluated with vm_compute on the "
+    "inputs the implementation ran and compared in Q within a per-case absolute tolerance = exact forward error bound of the float "
+    "evaluation (conditioning of every innovation covariance / solved system computed exactly by the oracle) + 1e-12 relative floor "
+    "(rule in meta/C12.json; ill-conditioned cases are counted and checked by the oracle only with that loose tolerance); "
+    "'sequential = batch' is proved and additionally decided per case exactly in Q; scripted-draw simulate/replicate exact, jitted kernel "
+    "bit-exact; independent Fraction oracle (joint law built from the linear maps of the primitive shocks, one exact solve; closed forms; "
+    "state equations for the shocks actually drawn; caller's arrays unchanged). non-trivial = n>=2 and record length>=2 (Kalman), "
+    "n>=2 and >=2 operations (sequences), n>=2 and horizon>=2 (moments/impulse/simulation), a constant state plus >=1 other state (stationary)"))
 
 
 # ------------------------------------------------------------------ exact linear algebra (oracle side)
@@ -779,13 +781,10 @@ def lss_checks(ctx, N):
             exSy = mm(G, exS)
             tolx = tolq(ue * (kap + 1) * float(ninf(exS)), exS)
             toly = tolq(ue * (kap + 2) * float(ninf(exS)) * float(ninf(G)), exSy)
-            tolr = tolq(ue * 4 * float(ninf(IbA)) * float(ninf(exS)) * 1.01, xt)
             cl = tol_class(tolx, exS)
             ctx.count("geometric_sums:" + cl)
             if cl.endswith("(not compared)"):
                 continue
-            if not mabs(mm(IbA, fm(Sx)), xt, tolr * (1 + 100 * int(cl != "tol<=1e-9"))) and not mabs(Sx, exS, tolx):
-                ctx.fail("lss_geometric", "(I - beta A) S_x != x_t", dict(ginp, tol=float(tolx)), [Sx.tolist(), Sy.tolist()], fl(exS))
             if not mabs(Sx, exS, tolx) or not mabs(Sy, exSy, toly):
                 ctx.fail("lss_geometric", "S_x != (I - beta A)^-1 x_t or S_y != G S_x", dict(ginp, tol=float(tolx)), [Sx.tolist(), Sy.tolist()], [fl(exS), fl(exSy)])
             geo_cases.append(tup(dims(d), qm(A), qm(G), qlit(beta), qm(xt), qm(Sx.tolist()), qm(Sy.tolist()), qlit(tolx), qlit(toly)))
@@ -860,25 +859,27 @@ def dyad_draw(rng, r, c, den=2, span=4):
     return [[Fraction(rng.randint(-span, span), den) for _ in range(c)] for _ in range(r)]
 
 
-def oracle_path(ctx, d, with_H, x, y, x0, w, v2, inp, tol, kind):
-    """x_{t+1} = A x_t + C w_{t+1}, y_t = G x_t + H v_t for the shocks drawn (exact evaluation of the right-hand sides)"""
+def oracle_path(ctx, d, with_H, x, y, x0, w, v2, inp, tol, kind, toly=None):
+    """x_{t+1} = A x_t + C w_{t+1}, y_t = G x_t + H v_t for the shocks drawn (exact evaluation of the right-hand sides);
+    tol / toly: absolute tolerances (0 for dyadic scripted draws)"""
+    toly = tol if toly is None else toly
     A, C, G, H = d["A"], d["C"], d["G"], d["H"]
     X = fm(x); Y = fm(y)
     n, ts = d["n"], len(X[0])
     col = lambda M, t: [[M[i][t]] for i in range(len(M))]
-    if not mclose(col(X, 0), [[frac(v)] for v in x0], tol):
+    if not mabs(col(X, 0), [[frac(v)] for v in x0], tol):
         ctx.fail(kind, "x_0 is not the drawn initial state", inp, fl(col(X, 0)), x0)
         return
     for t in range(ts - 1):
         rhs = madd(mm(A, col(X, t)), mm(C, col(fm(w), t)))
-        if not mclose(col(X, t + 1), rhs, tol):
+        if not mabs(col(X, t + 1), rhs, tol):
             ctx.fail(kind, "x_{t+1} != A x_t + C w_{t+1} for the shocks drawn", dict(inp, t=t), fl(col(X, t + 1)), fl(rhs))
             return
     for t in range(ts):
         rhs = mm(G, col(X, t))
         if with_H:
             rhs = madd(rhs, mm(H, col(fm(v2), t)))
-        if not mclose(col(Y, t), rhs, tol):
+        if not mabs(col(Y, t), rhs, toly):
             ctx.fail(kind, "y_t != G x_t + H v_t for the shocks drawn", dict(inp, t=t), fl(col(Y, t)), fl(rhs))
             return
 
@@ -956,9 +957,23 @@ def sim_checks(ctx, N):
         inp = dict(model_json(d), with_H=with_H, ts_length=ts, x0=x0, w=w, v=fl(v2) if not with_H else v2, genuine_draws=True)
         ctx.case(("simulate_rec", str(inp)), nontrivial=(d["n"] >= 2 and ts >= 3))
         ctx.count("simulate:genuine_draws")
-        oracle_path(ctx, d, with_H, x, y, x0, w, v2, inp, Fraction(1, 10**12), "lss_simulate_dynamics")
+        # error bound of the float path: the same recursion on absolute values
+        u = U0 * 8 * max(d["n"], d["m"], d["k"], d["l"])
+        Aa, Ca, Ga, Ha = [mabsval(d[key]) for key in ("A", "C", "G", "H")]
+        xa = [[abs(frac(v))] for v in x0]
+        bx = by = Fraction(0)
+        for t in range(ts):
+            ya = mm(Ga, xa)
+            if with_H:
+                ya = madd(ya, mm(Ha, [[abs(frac(v2[i][t]))] for i in range(d["l"])]))
+            bx, by = max(bx, ninf(xa)), max(by, ninf(ya))
+            if t < ts - 1:
+                xa = madd(mm(Aa, xa), mm(Ca, [[abs(frac(w[i][t]))] for i in range(d["m"])]))
+        tolx = Fraction(u * (ts + 2) * float(bx) * 1.000001 + FLOOR * (1.0 + float(bx)))
+        toly = Fraction(u * (ts + 3) * float(by) * 1.000001 + FLOOR * (1.0 + float(by)))
+        oracle_path(ctx, d, with_H, x, y, x0, w, v2, inp, tolx, "lss_simulate_dynamics", toly)
         rec_cases.append(tup(dims(d), qm(d["A"]), qm(d["C"]), qm(d["G"]), "(Some %s)" % qm(d["H"]) if with_H else "None",
-                             "%d%%nat" % ts, qlist([frac(v) for v in x0]), qm(w), qm(v2), qm(x.tolist()), qm(y.tolist())))
+                             "%d%%nat" % ts, qlist([frac(v) for v in x0]), qm(w), qm(v2), qm(x.tolist()), qm(y.tolist()), qlit(tolx), qlit(toly)))
         rec_meta.append(inp)
     SIMT = "nat * nat * nat * nat * Qmat * Qmat * Qmat * option Qmat * nat * list Q * Qmat * Qmat * Qmat * Qmat"
     ok = ("fun c => let '(n, m, k, l, A, C, G, Ho, ts, x0, w, v2, x, y) := c in "
@@ -966,11 +981,11 @@ def sim_checks(ctx, N):
     bad = ctx.coq_check("lss_simulate_scripted", IMPORTS, SIMT, ok, sim_cases, chunk=max(1, len(sim_cases) // 6), preamble=PRE)
     for i in bad:
         ctx.mismatch("C12.Model.simulate vs LinearStateSpace.simulate (scripted draws, exact)", sim_meta[i])
-    ok = ("fun c => let '(n, m, k, l, A, C, G, Ho, ts, x0, w, v2, x, y) := c in "
-          "osome (st_close %s) (simulate n m k l A C G Ho ts x0 w v2) (x, y)" % T12)
-    bad = ctx.coq_check("lss_simulate_recorded", IMPORTS, SIMT, ok, rec_cases, chunk=max(1, len(rec_cases) // 4), preamble=PRE)
+    ok = ("fun c => let '(n, m, k, l, A, C, G, Ho, ts, x0, w, v2, x, y, tolx, toly) := c in "
+          "osome (st_abs (tolx, toly)) (simulate n m k l A C G Ho ts x0 w v2) (x, y)")
+    bad = ctx.coq_check("lss_simulate_recorded", IMPORTS, SIMT + " * Q * Q", ok, rec_cases, chunk=max(1, len(rec_cases) // 4), preamble=PRE)
     for i in bad:
-        ctx.mismatch("C12.Model.simulate vs LinearStateSpace.simulate (recorded genuine draws, 1e-12)", rec_meta[i])
+        ctx.mismatch("C12.Model.simulate vs LinearStateSpace.simulate (recorded genuine draws, running error bound)", rec_meta[i])
     ok = ("fun c => let '(n, m, k, l, A, C, G, Ho, T, draws, v, x, y) := c in "
           "osome st_eq (replicate n m k l A C G Ho T draws v) (x, y)")
     bad = ctx.coq_check("lss_replicate_scripted", IMPORTS,
@@ -1046,18 +1061,56 @@ def stat_lit(res):
     return "(StatOk %s)" % " ".join(qm(np.asarray(z).tolist()) for z in res)
 
 
+def exact_stationary(d, with_H):
+    """closed form in Fractions, independent of the Coq model: constant state (value 1) kept, the other means solve
+    (I - A22) mu = A21, the other covariances solve the Lyapunov equation through the Kronecker system; returns
+    (mu_x, mu_y, Sigma_x, Sigma_y, Sigma_yx, kappa) with kappa = cond(I - A22) + cond(I - A22 (x) A22), or None"""
+    n, k = d["n"], d["k"]
+    A, C, G, H = d["A"], d["C"], d["G"], d["H"]
+    pos = eval(d["const_positions"])
+    oth = [i for i in range(n) if i not in pos]
+    dd = len(oth)
+    A22 = [[A[i][j] for j in oth] for i in oth]
+    C2 = [C[i] for i in oth]
+    CC2 = mm(C2, mt(C2)) if dd else []
+    IA = msub(ident(dd), A22)
+    rhs = [[A[i][pos[0]]] for i in oth] if pos else zeros(dd, 1)
+    mu2 = fsolve(IA, rhs) if dd else []
+    K = [[Fraction(int(r == c)) - A22[r // dd][c // dd] * A22[r % dd][c % dd] for c in range(dd * dd)] for r in range(dd * dd)]
+    v = fsolve(K, [[CC2[r // dd][r % dd]] for r in range(dd * dd)]) if dd else []
+    if mu2 is None or v is None:
+        return None
+    kappa = (cond_inf(IA) + cond_inf(K)) if dd else Fraction(2)
+    mu_x = zeros(n, 1); Sx = zeros(n, n)
+    for p in pos:
+        mu_x[p][0] = Fraction(1)
+    for a_, i in enumerate(oth):
+        mu_x[i][0] = mu2[a_][0]
+        for b_, j in enumerate(oth):
+            Sx[i][j] = v[a_ * dd + b_][0]
+    R = mm(H, mt(H)) if with_H else zeros(k, k)
+    return mu_x, mm(G, mu_x), Sx, madd(mm(mm(G, Sx), mt(G)), R), mm(G, Sx), kappa
+
+
 def stationary_dist_checks(ctx, N):
     cases, meta = [], []
     for ci in range(N):
         kind = ctx.rng.choice(["one", "one", "one", "none", "two"]) if ci >= 3 else ["one", "none", "two"][ci]
-        d = exact_floats(gen_const_model(ctx.rng, kind))
-        with_H = ctx.rng.random() < 0.6
+        d = gen_const_model(ctx.rng, kind)
+        with_H = ctx.rng.random() < 0.7
+        if with_H and ctx.rng.random() < 0.6:      # square non-diagonal / triangular / symmetric H: H H' is not H * H' elementwise
+            d["k"] = max(d["k"], 2); d["l"] = d["k"]
+            d["G"] = gen_G(ctx.rng, d["k"], d["n"])
+            d["kindH"] = ctx.rng.choice(["square", "triangular", "symmetric"])
+            d["H"] = gen_H(ctx.rng, d["k"], d["l"], d["kindH"])
+        d = exact_floats(d)
         ss = mk_lss(d, with_H)
         inp = dict(model_json(d), with_H=with_H)
         n, m, k, l = d["n"], d["m"], d["k"], d["l"]
         A, C, G, H = d["A"], d["C"], d["G"], d["H"]
         ctx.case(("stationary_distributions", str(inp)), nontrivial=(kind == "one" and n >= 2))
         ctx.count("stationary_distributions:const=" + kind)
+        ctx.count("stationary_distributions:H=" + (d["kindH"] if with_H else "None"))
         try:
             with warnings.catch_warnings():
                 warnings.simplefilter("ignore")
@@ -1068,44 +1121,55 @@ def stationary_dist_checks(ctx, N):
         except np.linalg.LinAlgError:
             res, lit = "LinAlgError", "StatSingular"
         ctx.count("stationary_distributions:result=" + (res if isinstance(res, str) else "ok"))
+        tol = Fraction(0)
         if kind == "two" and res != "ValueError":
             ctx.fail("lss_stationary_two_constants", "two constant states are expected to be rejected (broadcast error)", inp,
                      res if isinstance(res, str) else [np.asarray(z).tolist() for z in res], "ValueError")
         if kind != "two":
+            ex = exact_stationary(d, with_H)
+            if ex is None:
+                ctx.count("stationary_distributions:singular_skipped")
+                continue
             if isinstance(res, str):
                 ctx.fail("lss_stationary_raises", "stationary_distributions raised on a stable model", inp, res, None)
             else:
+                # both solvers are backward stable: forward error u (cond(I - A22) + cond(I - A22 (x) A22)) x size, then products by G, G'
+                kappa = float(ex[5])
+                size = 1.0 + max(float(ninf(z)) for z in ex[:5])
+                tol = Fraction(U0 * 8 * n * n * (kappa + 1) * size * (1.0 + float(ninf(G))) * (1.0 + float(ninf(mt(G)))) + FLOOR * size)
+                cl = tol_class(tol, ex[3])
+                ctx.count("stationary_distributions:" + cl)
+                if cl.endswith("(not compared)"):
+                    continue
+                names = ["mu_x", "mu_y", "Sigma_x", "Sigma_y", "Sigma_yx"]
+                for nm, got, want in zip(names, res, ex[:5]):
+                    if not mabs(got, want, tol):
+                        ctx.fail("lss_stationary_closed_form", "%s differs from the closed form (constant kept, (I-A22)mu=A21, Lyapunov solution, G.., +HH')" % nm,
+                                 dict(inp, tol=float(tol)), np.asarray(got).tolist(), fl(want))
+                        break
                 mu_x, mu_y, Sx, Sy, Syx = res
-                tol = Fraction(1, 10**9)
                 fmu, fS = fm(mu_x), fm(Sx)
-                R = mm(H, mt(H)) if with_H else zeros(k, k)
-                if not (mclose(mu_x, mm(A, fmu), tol) and mclose(Sx, madd(mm(mm(A, fS), mt(A)), mm(C, mt(C))), tol)):
+                tolr = tol * (1 + ninf(A)) * (1 + ninf(mt(A)))
+                if not (mabs(mu_x, mm(A, fmu), tolr) and mabs(Sx, madd(mm(mm(A, fS), mt(A)), mm(C, mt(C))), tolr)):
                     ctx.fail("lss_stationary_fixed_point", "mu_x != A mu_x or Sigma_x != A Sigma_x A' + CC'", inp,
                              [mu_x.tolist(), Sx.tolist()], None)
-                if not (mclose(mu_y, mm(G, fmu), tol) and mclose(Sy, madd(mm(mm(G, fS), mt(G)), R), tol) and mclose(Syx, mm(G, fS), tol)):
-                    ctx.fail("lss_stationary_obs", "mu_y / Sigma_y / Sigma_yx are not G mu_x / G Sigma_x G' + HH' / G Sigma_x", inp,
-                             [mu_y.tolist(), Sy.tolist(), Syx.tolist()], None)
-                # closed form: constant state keeps its value 1 and zero variance; exact solution of the linear equations
-                for p in eval(d["const_positions"]):
-                    if not (close(frac(mu_x[p, 0]), Fraction(1), tol) and all(abs(v) <= 1e-12 for v in Sx[p])):
-                        ctx.fail("lss_stationary_const", "constant state does not have mean 1 / variance 0", inp, [mu_x.tolist(), Sx.tolist()], None)
-                check_psd(ctx, Sx, inp, "stationary Sigma_x")
-        cases.append(tup(dims(d), qm(A), qm(C), qm(G), "(Some %s)" % qm(H) if with_H else "None", qm(d["mu0"]), lit))
+                check_psd(ctx, Sx, inp, "stationary Sigma_x", tol=float(tol))
+        cases.append(tup(dims(d), qm(A), qm(C), qm(G), "(Some %s)" % qm(H) if with_H else "None", qm(d["mu0"]), lit, qlit(tol)))
         meta.append((inp, res if isinstance(res, str) else [np.asarray(z).tolist() for z in res]))
     pre = PRE + """
 Definition stat_close (tol : Q) (a b : @stat_result Q) : bool :=
   match a, b with
   | StatOk a1 a2 a3 a4 a5, StatOk b1 b2 b3 b4 b5 =>
-      Qss_close tol a1 b1 && Qss_close tol a2 b2 && Qss_close tol a3 b3 && Qss_close tol a4 b4 && Qss_close tol a5 b5
+      Mabs tol a1 b1 && Mabs tol a2 b2 && Mabs tol a3 b3 && Mabs tol a4 b4 && Mabs tol a5 b5
   | StatBroadcast, StatBroadcast => true
   | StatSingular, StatSingular => true
   | _, _ => false
   end.
 """
-    ok = ("fun c => let '(n, m, k, l, A, C, G, Ho, mu0, res) := c in "
-          "stat_close %s (stationary_distributions n m k l A C G Ho mu0) res" % T9)
+    ok = ("fun c => let '(n, m, k, l, A, C, G, Ho, mu0, res, tol) := c in "
+          "stat_close tol (stationary_distributions n m k l A C G Ho mu0) res")
     bad = ctx.coq_check("lss_stationary_distributions", IMPORTS,
-                        "nat * nat * nat * nat * Qmat * Qmat * Qmat * option Qmat * Qmat * @stat_result Q", ok, cases,
+                        "nat * nat * nat * nat * Qmat * Qmat * Qmat * option Qmat * Qmat * @stat_result Q * Q", ok, cases,
                         chunk=max(1, len(cases) // 8), preamble=pre)
     for i in bad:
         ctx.mismatch("C12.Model.stationary_distributions / partition vs LinearStateSpace.stationary_distributions", meta[i][0], meta[i][1])
@@ -1141,7 +1205,10 @@ def replay(data):
             print("after %d observations: impl x_hat=%s Sigma=%s" % (j + 1, s and s[0], s and s[1]))
             print("   exact conditional mean=%s cov=%s" % (ex and fl(ex[0]), ex and fl(ex[1])))
             if s is not None and ex is not None:
-                print("   agrees:", mclose(s[0], ex[0], Fraction(1, 10**9)) and mclose(s[1], ex[1], Fraction(1, 10**9)))
+                steps = exact_ops(d, d["mu0"], d["S0"], [("U", y) for y in ys[:j + 1]])
+                tols, cls = step_tolerances(steps)
+                print("   forward error bound (x_hat, Sigma): %.3g %.3g [%s]; agrees within it: %s"
+                      % (float(tols[j][0]), float(tols[j][1]), cls, mabs(s[0], ex[0], tols[j][0]) and mabs(s[1], ex[1], tols[j][1])))
     elif "ts_length" in inp and "x0" in inp:
         with_H = inp.get("with_H", True)
         rs = ScriptedRS([inp["x0"], inp["w"]] + ([inp["v"]] if with_H else []))
